@@ -115,6 +115,20 @@ def lcmv(d, ctx):
         ref = ob.lcmv(atf[:, f], r, phi[f])
         require_close(w[f], ref, 'lcmv-closed-form',
                       atol=1e-5 * np.linalg.norm(ref) * max(1, np.linalg.cond(G) ** 0.5) + 1e-300)
+        # minimum variance among all vectors meeting the constraints: add any
+        # vector orthogonal to every steering vector
+        A = atf[:, f].T                                        # (D, K)
+        Q, _ = np.linalg.qr(A, mode='complete')
+        null = Q[:, K:]                                        # orthogonal complement
+        pw = (w[f].conj() @ ob.hermitian(phi[f]) @ w[f]).real
+        for _ in range(6):
+            if null.shape[1] == 0:
+                break
+            v = w[f] + null @ (gen.cnormal(rng, (null.shape[1],)) * np.linalg.norm(w[f])
+                               * 10 ** rng.uniform(-2, 1))
+            pv = (v.conj() @ ob.hermitian(phi[f]) @ v).real
+            require(pw <= pv * (1 + 1e-4) + 1e-300, 'lcmv-not-minimum-variance',
+                    f'f={f}: {pw} > competitor {pv}')
     ctx.nontrivial(K >= 2 and F != D)
     ctx.label(f'K={K}', rk)
 
